@@ -111,6 +111,11 @@ func Base() *rapid.Generator[Input] {
 			default:
 				in = Input{Src: []byte(xgotext.File(true).Draw(t, "xgotext")), Class: true, Origin: "xgotext-class"}
 			}
+			if strings.HasPrefix(in.Origin, "xgotext") {
+				// xgotext decorates some nodes with block comments inside expressions; arbitrary
+				// comment positions are C21's domain, not that of a base source
+				in.Src = []byte(strings.ReplaceAll(strings.ReplaceAll(string(in.Src), " /* c */", ""), "/* c */", ""))
+			}
 			if Valid(in.Src, in.Class) {
 				return in
 			}
